@@ -577,3 +577,4 @@ def run(ctx, led):
     run_rule(led, "L14", "the nogood a lazy reason refers to is never deleted while it is the reason of a trail entry (shared with C07-J1)", _C07.j1, ctx)
     run_rule(led, "L15", "the reason implies the branch: every tested bound of another variable that guards a propagation is stated in the reason", l15, ctx)
     run_rule(led, "L16", "SIBLINGS: the `…_at_trail_position` queries agree on the inclusive position convention", l16, ctx)
+    run_rule(led, "L17", "lazy reasons of reified propagators keep the reification literal (shared with C09-R7)", C09.r7, ctx)
